@@ -122,11 +122,13 @@ def run(tier, replay=None):
     rows = []
     pool_names = {k: sorted({(v['object'], v['opcode']) for v in vs}) for k, vs in pool.items()}
     mism = {}
-    for s in seqs:
+    for si, s in enumerate(seqs):
         stream = ''.join(v['hex'] for v in s['frames'])
         rows.append([s['id'] + '.enum', 'W.stream', s['version'], s['dir'], 'enum', 'plain', '-', stream])
         names = ','.join(v['object'] for v in s['frames'])
         rows.append([s['id'] + '.expect', 'W.stream', s['version'], s['dir'], 'expect', 'plain', names, stream])
+        if tier == 'thorough' and si % 3:
+            continue        # the variants below for every third history of the (long) thorough histories: the workload has to stay runnable
         # the same history over a blocking transport that delivers short reads (a socket may return fewer bytes than asked for)
         rows.append([s['id'] + '.enum-short', 'W.stream', s['version'], s['dir'], 'enum', 'plain;chunk=' + S.chunk_pattern(rng), '-', stream])
         rows.append([s['id'] + '.expect-short', 'W.stream', s['version'], s['dir'], 'expect', 'plain;chunk=' + S.chunk_pattern(rng), names, stream])
@@ -135,10 +137,13 @@ def run(tier, replay=None):
         if mis:
             mism[s['id']] = mis
             rows.append([s['id'] + '.expect-mismatch', 'W.stream', s['version'], s['dir'], 'expect', 'plain', mnames, stream])
+    added = {r[0] for r in rows}
     evc = common.run_driver(binary, rows, 'c02c', timeout=60)
     for s in seqs:
         for reader in ('enum', 'expect', 'enum-short', 'expect-short', 'expect-mismatch'):
             if reader == 'expect-mismatch' and s['id'] not in mism:
+                continue
+            if f"{s['id']}.{reader}" not in added:
                 continue
             e = evc.get(f"{s['id']}.{reader}")
             if e is None:
